@@ -82,6 +82,79 @@ func collectPaths(s *corpus.Schema, t corpus.TypeExpr, v *model.Value, prefix []
 	}
 }
 
+// injectSlashKeys gives maps of v an entry whose key reads like a path: next to an entry k whose value has a member c,
+// an entry "k/c" is added. A spec naming k/c below the map is about the member c of entry k, never about the entry "k/c".
+func injectSlashKeys(v *model.Value) bool {
+	if v == nil {
+		return false
+	}
+	done := false
+	switch v.Kind {
+	case model.KMap:
+		keys := make([]string, 0, len(v.Entries))
+		for k := range v.Entries {
+			keys = append(keys, k)
+		}
+		sort.Strings(keys)
+		for _, k := range keys {
+			e := v.Entries[k]
+			if injectSlashKeys(e) {
+				done = true
+			}
+			if e == nil || strings.ContainsAny(k, "/*") || k == "" {
+				continue
+			}
+			var child string
+			switch e.Kind {
+			case model.KRecord:
+				names := make([]string, 0, len(e.Fields))
+				for n := range e.Fields {
+					names = append(names, n)
+				}
+				sort.Strings(names)
+				if len(names) > 0 {
+					child = names[0]
+				}
+			case model.KMap:
+				sub := make([]string, 0, len(e.Entries))
+				for n := range e.Entries {
+					sub = append(sub, n)
+				}
+				sort.Strings(sub)
+				if len(sub) > 0 && !strings.ContainsAny(sub[0], "/*") && sub[0] != "" {
+					child = sub[0]
+				}
+			}
+			if child != "" {
+				if _, taken := v.Entries[k+"/"+child]; !taken {
+					v.Entries[k+"/"+child] = model.Clone(e)
+					done = true
+				}
+			}
+		}
+	case model.KArray:
+		for _, e := range v.Elems {
+			if injectSlashKeys(e) {
+				done = true
+			}
+		}
+	case model.KRecord:
+		names := make([]string, 0, len(v.Fields))
+		for n := range v.Fields {
+			names = append(names, n)
+		}
+		sort.Strings(names)
+		for _, n := range names {
+			if injectSlashKeys(v.Fields[n]) {
+				done = true
+			}
+		}
+	case model.KUnion:
+		done = injectSlashKeys(v.Member)
+	}
+	return done
+}
+
 func validSpecPath(p []string) bool {
 	for _, seg := range p {
 		if seg == "" || strings.ContainsAny(seg, "/") || seg == "$set" || seg == "$delete" {
@@ -121,6 +194,9 @@ func codecLevel(run *ev.Run, set *bridge.Set, rng *rand.Rand, perType int) {
 		t := corpus.R(full)
 		for i := 0; i < perType; i++ {
 			v := g.Value(t, 0)
+			if i%3 == 1 && injectSlashKeys(v) {
+				run.Count("values_with_slash_twin_keys", 1)
+			}
 			var paths [][]string
 			collectPaths(s, t, v, nil, &paths, 0)
 			var usable [][]string
